@@ -110,6 +110,10 @@ def count_nontrivial(P, scens, traces):
     return len(seen)
 
 
+NOT_APPLICABLE = {
+    'C15': 'memory-access-level property; the atomic actions of a TLA+ specification cannot express it and the only oracle is the race detector, a different technique (DESIGN.md section 6)',
+}
+
 PROPS = {
     'C07': dict(rule='3 stream kinds x 3 programs (echo, burst, idle handler) x cancellation after every prefix of the client program x {explicit cancel, deadline expiry on the virtual clock} x bystander calls; cancellation with 0..5 responses queued unread; every scenario continues with a later Recv, a later Send and a probe call; non-trivial = contains a cancel or a deadline', nontrivial_ops=['cancel', 'adv'], assumptions=COMMON_ASSUMPTIONS, models=[]),
     'C09': dict(rule='client read failure after every prefix of the response sequence of 4 base conversations x write side {writable, failing}, followed by calls started after the failure; calls parked in the failure-check -> registration window (gate mux.call.window) while the failure lands; non-trivial = contains a client read fault', nontrivial_ops=['fault'], assumptions=COMMON_ASSUMPTIONS, models=[]),
